@@ -54,7 +54,7 @@ REGISTRY = {
         'level_text': 'Per-operation contracts: one connect on accept, one read event per non-empty recv with those bytes, exactly one '
                       'disconnect from _close for a connected socket, and the NoResidue invariant (no client/buffer/close-queue/poller '
                       'entry for a socket that is gone) preserved by every handler including late write/close/_on_write.'
-                      ' Round 5: the emission contracts of the three pollers (a descriptor reported readable gets its _read event, also next to an error or hang-up bit) are obligations of C12 as well.',
+                      ' Round 5: the emission contracts of the three pollers (a descriptor reported readable gets its _read event, also next to an error or hang-up bit) are obligations of C12 as well. Client._read (the client endpoint): one recv per readiness event, exactly one read event with exactly the bytes received, empty read closes, errors signalled.',
         'level_note': 'trusted: socket.recv/send/close/shutdown/getpeername contracts; peer behaviour enters only through them; '
                       'poller by its BasePoller contract (C10).',
         'explanation': 'life-cycle and residue contracts discharged by z3/cvc5',
